@@ -206,6 +206,22 @@ theorem onWrFail_truth {hist : List Ev} (e : Ev) {p : Nat} {sl : Slot} (h1 : Pha
     exact ⟨hk, r, hr, chain_mono [e] (chain_prefix (Ps := [isReq sl.op p, isRx r]) (Qs := [isRel p]) c)⟩
   · exact ⟨phaseOK_mono [e] h1, fastOK_mono [e] h2⟩
 
+theorem onConnUp_truth {hist : List Ev} (e : Ev) {p : Nat} {sl : Slot} (h1 : PhaseOK hist p sl) (h2 : FastOK hist p sl) :
+    PhaseOK (hist ++ [e]) p sl.onConnUp ∧ FastOK (hist ++ [e]) p sl.onConnUp := by
+  unfold Slot.onConnUp
+  split
+  · rename_i hph
+    refine ⟨by simp only [PhaseOK], ?_⟩
+    intro a ha; obtain ⟨_, _, h3⟩ := h2 a ha; simp only [hph] at h3
+  · rename_i hph
+    simp only [PhaseOK, hph] at h1
+    obtain ⟨hk, r, hr, c⟩ := h1
+    refine ⟨?_, ?_⟩
+    · simp only [PhaseOK]
+      exact ⟨hk, r, hr, chain_mono [e] (chain_prefix (Ps := [isReq sl.op p, isRx r]) (Qs := [isRel p]) c)⟩
+    · intro a ha; obtain ⟨_, _, h3⟩ := h2 a ha; simp only [hph] at h3
+  · exact ⟨phaseOK_mono [e] h1, fastOK_mono [e] h2⟩
+
 theorem onRx_truth {hist : List Ev} {a : Ack} {sl : Slot} (h1 : PhaseOK hist a.pid sl) (h2 : FastOK hist a.pid sl) :
     PhaseOK (hist ++ [.rx a]) a.pid (sl.onRx a) ∧ FastOK (hist ++ [.rx a]) a.pid (sl.onRx a) := by
   have hrx : isRx a (.rx a) := rfl
@@ -258,7 +274,9 @@ theorem truthInv_step (hist : List Ev) (s : S) (e : Ev) (s' : S) (I : TruthInv h
     simp only [step] at h; split at h
     · simp at h
     · simp only [Option.some.injEq] at h; subst h; exact truth_keep _ I rfl
-  | connUp rm => simp only [step, Option.some.injEq] at h; subst h; exact truth_keep _ I rfl
+  | connUp rm =>
+    simp only [step, Option.some.injEq] at h; subst h
+    exact truth_map _ I rfl (fun p sl h1 h2 => onConnUp_truth _ h1 h2)
   | connDown => simp only [step, Option.some.injEq] at h; subst h; exact truth_keep _ I rfl
   | wr =>
     simp only [step] at h; split at h
@@ -379,6 +397,10 @@ theorem onWrFail_kind (sl : Slot) : sl.onWrFail.op = sl.op ∧ sl.onWrFail.kind 
   unfold Slot.onWrFail; repeat' split
   all_goals exact ⟨rfl, rfl, rfl⟩
 
+theorem onConnUp_kind (sl : Slot) : sl.onConnUp.op = sl.op ∧ sl.onConnUp.kind = sl.kind ∧ sl.onConnUp.n = sl.n := by
+  unfold Slot.onConnUp; repeat' split
+  all_goals exact ⟨rfl, rfl, rfl⟩
+
 theorem onRx_kind (sl : Slot) (a : Ack) : (sl.onRx a).op = sl.op ∧ (sl.onRx a).kind = sl.kind ∧ (sl.onRx a).n = sl.n := by
   refine ⟨onRx_op sl a, ?_⟩
   unfold Slot.onRx; repeat' split
@@ -420,7 +442,7 @@ theorem kindInv_step (hist : List Ev) (s : S) (e : Ev) (s' : S) (I : KindInv his
         by_cases hop : sl.op = op
         · rw [hop] at this; exact absurd this (hn _)
         · simp [hop, this]
-  | connUp rm => simp only [step, Option.some.injEq] at h; subst h; exact kind_keep I rfl (by intro _ _ _ h; cases h) (fun p sl h => ⟨sl, h, rfl, rfl, rfl⟩)
+  | connUp rm => simp only [step, Option.some.injEq] at h; subst h; exact kind_keep I rfl (by intro _ _ _ h; cases h) (slots_map onConnUp_kind)
   | connDown => simp only [step, Option.some.injEq] at h; subst h; exact kind_keep I rfl (by intro _ _ _ h; cases h) (fun p sl h => ⟨sl, h, rfl, rfl, rfl⟩)
   | wr =>
     simp only [step] at h; split at h
